@@ -563,6 +563,8 @@ class C12(core.PropertyCheck):
         tags.append(f"checks:{len(impl['checks'])}")
         if impl.get("exc"):
             tags.append("raised:" + impl["exc"]["type"])
+        if impl.get("open_raised"):
+            tags.append("skipped:initial-build-raised")
         for k, _ in self.problems(case, impl):
             tags.append("problem:" + k)
         return tags
